@@ -52,6 +52,29 @@ const SYS_CLOCK_GETTIME: c_long = 228;
 #[cfg(target_arch = "aarch64")]
 const SYS_CLOCK_GETTIME: c_long = 113;
 
+#[cfg(target_arch = "x86_64")]
+const SYS_GETTID: c_long = 186;
+#[cfg(target_arch = "aarch64")]
+const SYS_GETTID: c_long = 178;
+
+/// kernel thread id of the calling thread
+pub fn gettid() -> i32 {
+    unsafe { syscall(SYS_GETTID) as i32 }
+}
+
+/// CPU time consumed so far by the thread with kernel id `tid` (its per-thread CPU clock, read with the
+/// raw system call: no offset, no step), in nanoseconds; None if the thread is gone
+pub fn thread_cpu_ns(tid: i32) -> Option<u64> {
+    // MAKE_THREAD_CPUCLOCK(tid, CPUCLOCK_SCHED)
+    let clk: c_long = (((!tid) << 3) | 6) as c_long;
+    let mut ts = Timespec { tv_sec: 0, tv_nsec: 0 };
+    let r = unsafe { syscall(SYS_CLOCK_GETTIME, clk, &mut ts as *mut Timespec) };
+    if r != 0 {
+        return None;
+    }
+    Some(ts.tv_sec as u64 * 1_000_000_000 + ts.tv_nsec as u64)
+}
+
 /// The process's `clock_gettime`: the kernel's clock plus this thread's offset.
 ///
 /// # Safety
